@@ -904,6 +904,45 @@ def mapping_files(ctx):
     fa = RE.fa(mp[0])
     S = Sym(RE, fa)
     fm = [tc for tc in fmt.text_calls(RE, fa) if tc["kind"] == "format" and len(args(fa, S, tc)) == 2]
+    # one writing block run over `[("lmap", left list), ("rmap", right list)]`
+    table = None
+    if len(fm) == 1:
+        for b0, i0, s0 in fa.stmts():
+            rv0 = s0.get("rv") or {}
+            if rv0.get("k") == "agg" and rv0.get("agg") == "array" and len(rv0.get("ops", [])) == 2:
+                rows_ = []
+                for o0 in rv0["ops"]:
+                    d0 = fa.single_def(op_place(o0)["l"]) if op_place(o0) is not None and not op_place(o0)["p"] else None
+                    if d0 and d0[2] == "assign" and d0[3]["k"] == "agg" and d0[3].get("agg") == "tuple" and len(d0[3]["ops"]) == 2:
+                        k0 = fmt.const_of(fa, d0[3]["ops"][0])
+                        rows_.append((k0.get("str") if k0 else None, d0[3]["ops"][1]))
+                if len(rows_) == 2:
+                    table = rows_
+    if table is not None:
+        ok = lits(fm[0]) == [d, "\n"]
+        ctx.ob("FMT", "mapping|writer|id<TAB>prob", ok, "map/src/reorder.rs",
+               "reorder writes `id TAB probability newline` into both mapping files (one block run for both)" if ok else
+               "reorder's mapping lines have literals %s" % [lits(tc) for tc in fm])
+        o = arg_ops(fa, fm[0])[0]
+        bl = base_local(fa, o)
+        okid = ok and ("#0" in show(S.operand(o)) or (bl is not None and bl[1][-1:] == ["#0"]))
+        ctx.ob("FMT", "mapping|writer|id-first", bool(okid), "map/src/reorder.rs",
+               "the id is the first column, the one map parses" if okid else
+               "reorder does not write the id in the first column")
+        probs = [(b, t) for b, t in calls_named(fa, "compute_connid_probs")]
+        ctx.ob("FMT", "mapping|writer|one-probs-call", len(probs) == 1, "map/src/reorder.rs",
+               "both files come from one compute_connid_probs() result")
+        if len(probs) == 1:
+            exts = [e for e, _ in table]
+            srcs = [tuple_field_of_loop(fa, S, o1, probs[0][0]) for _, o1 in table]
+            # the extension that is set and the list that is written are the two members of one row
+            ext_ok = all(fmt.const_of(fa, t["args"][1]) is None for b, t in calls_named(fa, "set_extension"))
+            ok = exts == ["lmap", "rmap"] and srcs == [0, 1] and ext_ok
+            ctx.ob("FMT", "mapping|writer|lmap<-left-list,rmap<-right-list", ok, "map/src/reorder.rs",
+                   "*.lmap receives the left-id list (first result), *.rmap the right-id list" if ok else
+                   "files %s receive result components %s: left and right mappings are crossed"
+                   % (exts, srcs))
+        return
     ok = len(fm) == 2 and all(lits(tc) == [d, "\n"] for tc in fm)
     ctx.ob("FMT", "mapping|writer|id<TAB>prob", ok, "map/src/reorder.rs",
            "reorder writes `id TAB probability newline` into both mapping files" if ok else
